@@ -20,6 +20,9 @@ Tie: G  `Gen.proximity_dask` (pad expressions, depth order, boundary, fallback, 
         Every difference found is re-run through the public Dask / NumPy API before it is reported, a random
         sample of the window cases goes through the public API as well (simulated == real), and a sample
         goes through the Lean model `Prox.run` on the clipped windows (model == kernel on the block cells).
+        (3) stream `geo`: the public functions with GREAT_CIRCLE on lon/lat rasters (base latitudes 0, +-45, +-60, +-80 and next to
+        a pole; cells 1e-4..1 degree; max_distance classes), restricted to the property's domain: the only in-domain rasters on
+        which a cell reaches a target in another column are those whose columns are millimetres wide (see `gen_geo_case`).
 Oracle (from the property text): public Dask result == public NumPy result.  Differences are classified with a
 brute-force nearest-target search: where Dask reports an exact nearest target and NumPy (the whole-raster
 heuristic sweep) does not, or both report exact nearest targets that are equidistant, the finding is a
@@ -92,6 +95,133 @@ def gen_case(rng):
                 rch=list(random_composition(rng, h)), cch=list(random_composition(rng, w)),
                 sched=rng.choice([["synchronous", None], ["threads", 2], ["threads", 4]]),
                 dtype=rng.choice(["float64", "float32", "int32"]))
+
+
+GEO_LATS = [0.0, 45.0, -45.0, 60.0, -60.0, 80.0, -80.0]
+# The halo the property documents ("max_distance / cellsize per axis") divides metres by degrees.  It covers max_distance along x
+# exactly as long as a degree of longitude is at least one metre long at every row: 111319.49 * sin(colatitude) >= 1, i.e. at
+# least 5.15e-4 degrees (57 m) away from a pole.  Closer than that the *unchanged* code under-pads (observed, see
+# `polar_cap_observation`); the stream keeps 20 % clear of the limit (7e-4 degrees) so that rounding the halo to whole cells and the
+# curvature term of the haversine cannot matter, and max_distance (at most the raster's extent in degrees, read as metres: a few
+# centimetres) stays far below the distance to the pole (>= 78 m), so no search circle contains the pole.
+POLAR_MIN_COLAT = 7e-4
+
+
+def halo_cells(md, sx, sy):
+    """the halo of the property text, in cells per axis: max_distance / cell size, rounded to the nearest cell"""
+    return int(md / sy + 0.5), int(md / sx + 0.5)
+
+
+def gen_geo_case(rng):
+    """GREAT_CIRCLE on geographic rasters: base latitude 0 / +-45 / +-60 / +-80 / next to a pole  x  cell sizes 1e-4 .. 1 degree
+    (square and 2:1 / 1:2)  x  max_distance classes, restricted to the property's domain (the halo max_distance / cellsize, in
+    cells, does not exceed the raster).  max_distance is in metres and the cell size in degrees, so inside the domain a cell
+    reaches its neighbours only where a degree of longitude is short: the rows next to a pole (a cell of 0.001 x 0.001 degrees
+    whose centre is 0.0005 degrees from the pole is 111 m high and 1 mm wide).  There the distance per column changes from row to
+    row -- the halo along x has to be judged in the units the property gives it, not in metres per degree at the equator.
+    Targets sit in the rows nearest to the pole, the raster is split along x (and sometimes y)."""
+    polar = rng.random() < 0.75
+    if polar:
+        sx = rng.choice([1e-4, 1e-3, 1e-3, 1e-3, 1e-2])
+        sy = sx * rng.choice([1.0, 1.0, 1.0, 2.0, 0.5])
+        h, w = rng.randrange(4, 13), rng.randrange(6, 17)
+        # colatitude of the row nearest to the pole: at least 7e-4 degrees (78 m from the pole), where a degree of longitude is
+        # still 1.36 m long -- see POLAR_MIN_COLAT
+        colat0 = max(sy * rng.choice([0.5, 1.0, 2.0, 4.0]), POLAR_MIN_COLAT * rng.choice([1.0, 1.0, 1.5, 3.0]))
+        south = rng.random() < 0.3
+        top = 90.0 - colat0
+        y0 = -top if south else top - (h - 1) * sy                  # the smallest latitude of the raster
+        desc_y = rng.random() < 0.6
+        pole_first = desc_y != south                                 # is row 0 the row nearest to the pole?
+        lat_class = "pole-S" if south else "pole-N"
+        near_rows = list(range(0, min(h, 4)))                     # rows counted from the pole
+    else:
+        base = rng.choice(GEO_LATS)
+        sx = rng.choice([1e-3, 1e-2, 0.1, 0.5, 1.0])
+        sy = sx * rng.choice([1.0, 1.0, 2.0, 0.5])
+        h, w = rng.randrange(3, 10), rng.randrange(4, 11)
+        y0 = base - (h // 2) * sy
+        if y0 + (h - 1) * sy > 89.0:
+            y0 = 89.0 - (h - 1) * sy
+        y0 = max(y0, -89.0)
+        desc_y = rng.random() < 0.5
+        lat_class = f"{base:+.0f}"
+        near_rows = list(range(h))
+    x0 = round(rng.uniform(-179.0, 179.0 - w * sx), rng.choice([0, 2, 4]))
+    desc_x = rng.random() < 0.2
+    # targets: unique values, mostly in the rows nearest to the pole
+    vals = [0.0] * (h * w)
+    for n_ in range(rng.randrange(1, 5)):
+        r_ = rng.choice(near_rows) if rng.random() < 0.85 else rng.randrange(h)
+        row = r_ if (not polar or pole_first) else h - 1 - r_
+        vals[row * w + rng.randrange(w)] = float(n_ + 1)
+    # max_distance classes, all inside the domain: a fraction of the largest admissible halo, or a few cell widths (in metres) of
+    # the row nearest to the pole / of the base latitude
+    cap = min(h * sy, w * sx)
+    lat_ref = (90.0 - colat0) if polar else abs(y0 + (h // 2) * sy)
+    cell_m = 111319.5 * sx * math.cos(math.radians(lat_ref))
+    kind = rng.choice(["cap", "cap", "half-cap", "cells", "cells", "cells", "cells", "inf", "tiny"])
+    if kind == "cap":
+        md = cap * 0.98
+    elif kind == "half-cap":
+        md = cap * rng.choice([0.3, 0.5, 0.7])
+    elif kind == "cells":
+        md = cell_m * rng.choice([0.8, 1.6, 2.7, 4.4, 9.3])
+    elif kind == "tiny":
+        md = cap * 0.01
+    else:
+        md = None
+    if md is not None:
+        while md > 0 and (halo_cells(md, sx, sy)[0] > h or halo_cells(md, sx, sy)[1] > w):
+            md *= 0.7
+            kind = "cells-clipped"
+        # the cell size the code divides by is (max - min) / (n - 1) of decimal coordinates, i.e. sx up to rounding: keep the
+        # quotient away from k + 1/2, where that rounding would decide the halo (the generated pad is evaluated exactly)
+        while md > 0 and any(abs((md / s_) % 1.0 - 0.5) < 1e-3 for s_ in (sx, sy)):
+            md *= 0.987
+    rch = list(random_composition(rng, h)) if rng.random() < 0.4 else [h]
+    cch = list(random_composition(rng, w))
+    if len(cch) == 1 and w >= 2:
+        cut = rng.randrange(1, w)
+        cch = [cut, w - cut]
+    if rng.random() < 0.5:
+        # one more target in a column next to a column split, in a row near the pole ("targets just inside / outside the halo")
+        cut = sum(cch[:rng.randrange(1, len(cch))])
+        r_ = rng.choice(near_rows)
+        row = r_ if (not polar or pole_first) else h - 1 - r_
+        col = min(w - 1, max(0, cut + rng.choice([-2, -1, 0, 1])))
+        if vals[row * w + col] == 0.0:
+            vals[row * w + col] = 9.0
+    return dict(h=h, w=w, sx=sx, sy=sy, desc_y=desc_y, desc_x=desc_x, x0=x0, y0=y0, metric="GREAT_CIRCLE",
+                vals=[tok(v) for v in vals], targets=[], max_distance=md, mode=rng.choice(MODES), rch=rch, cch=cch,
+                sched=rng.choice([["synchronous", None], ["threads", 2]]), dtype=rng.choice(["float64", "float64", "float32"]),
+                stream="geo", geo=dict(lat=lat_class, maxd=kind))
+
+
+# informational (never a failure of the run, recorded under `observations` in the evidence): the same stream one step closer to the
+# pole than POLAR_MIN_COLAT.  Row 0 is 0.00025 degrees (28 m) from the south pole, a degree of longitude is 0.49 m there, the cells
+# are 0.49 mm wide; max_distance = 2.25 mm reaches 4 columns, the documented halo max_distance / cellsize_x = 2.25 -> 2 columns.
+POLAR_CAP_CASE = dict(h=9, w=8, sx=0.001, sy=0.0005, desc_y=False, desc_x=False, x0=41.0, y0=-89.99975, metric="GREAT_CIRCLE",
+                      vals=[tok(v) for v in [0.0] * 5 + [1.0] + [0.0] * 6 + [2.0] + [0.0] * 11 + [3.0] + [0.0] * 6 + [4.0] + [0.0] * 40],
+                      targets=[], max_distance=0.00225, mode="proximity", rch=[9], cch=[1, 3, 1, 1, 2], sched=["synchronous", None],
+                      dtype="float64", stream="observation")
+
+
+def polar_cap_observation(r, c, res):
+    a = case_array(c).astype(np.float64)
+    xs, ys = case_coords(c)
+    cells = []
+    for (i, j) in differing_cells(c, res):
+        e, near = nearest_targets(c, a, xs, ys, i, j)
+        cells.append(dict(cell=[i, j], numpy=res["numpy"][1][i][j], dask=res["dask"][1][i][j], exact_nearest=e,
+                          nearest_target=[list(t) for t in near]))
+    r.extra.setdefault("observations", []).append(dict(
+        what="GREAT_CIRCLE within 57 m of a pole (outside the geo stream, which stays >= 78 m away): a degree of longitude is shorter "
+             "than a metre, so the halo max_distance[m] / cellsize_x[deg] columns does not cover max_distance; 9x8 raster, cells "
+             "0.001 x 0.0005 degrees, row 0 at latitude -89.99975, max_distance 2.25 mm, chunks (9,) x (1,3,1,1,2), dask depth "
+             f"{res.get('seen', {}).get('depth')}: cells where the Dask-backed proximity differs from NumPy",
+        cells=cells, dask_equals_numpy=not cells and res["dask"][0] == "ok"))
+    r.case({k: c[k] for k in c if k != "stream"}, nontrivial=False, tags=["stream:observation"])
 
 
 def case_array(c):
@@ -181,7 +311,7 @@ def run_real_full(c):
     """one case through the public API; when the two backends differ, the two other modes as well (needed to
     say whether the difference is the sweep heuristic's)"""
     res = run_real(c)
-    if differing_cells(c, res) and c["metric"] in ("EUCLIDEAN", "MANHATTAN"):
+    if differing_cells(c, res) and c["metric"] in ("EUCLIDEAN", "MANHATTAN", "GREAT_CIRCLE"):
         res["modes"] = {c["mode"]: dict(numpy=res["numpy"], dask=res["dask"])}
         for m in MODES:
             if m != c["mode"]:
@@ -209,6 +339,13 @@ def is_target(v, tv):
     return any(v == t for t in tv)
 
 
+def gc_dist(x1, x2, y1, y2):
+    """great-circle distance in metres on the sphere of radius 6378137 m (haversine), lon/lat in degrees"""
+    la1, lo1, la2, lo2 = map(math.radians, (y1, x1, y2, x2))
+    a = math.sin((la2 - la1) / 2) ** 2 + math.cos(la1) * math.cos(la2) * math.sin((lo2 - lo1) / 2) ** 2
+    return 6378137 * 2 * math.asin(math.sqrt(min(1.0, a)))
+
+
 def nearest_targets(c, a, xs, ys, i, j):
     """(exact nearest distance or None when none within max_distance, the list of target cells at that distance)"""
     best, cells = None, []
@@ -217,10 +354,13 @@ def nearest_targets(c, a, xs, ys, i, j):
             if not is_target(float(a[ti, tj]), c["targets"]):
                 continue
             dx, dy = abs(float(xs[tj]) - float(xs[j])), abs(float(ys[ti]) - float(ys[i]))
-            d = dx + dy if c["metric"] == "MANHATTAN" else math.hypot(dx, dy)
+            if c["metric"] == "GREAT_CIRCLE":
+                d = gc_dist(float(xs[j]), float(xs[tj]), float(ys[i]), float(ys[ti]))
+            else:
+                d = dx + dy if c["metric"] == "MANHATTAN" else math.hypot(dx, dy)
             if best is None or d < best * (1 - 1e-9):
                 best, cells = d, [(ti, tj)]
-            elif abs(d - best) <= 1e-9 * max(1.0, best):
+            elif abs(d - best) <= 1e-9 * (max(1.0, best) if c["metric"] != "GREAT_CIRCLE" else best):
                 cells.append((ti, tj))
     if best is None:
         return None, []
@@ -234,7 +374,7 @@ def names_exact(c, a, xs, ys, i, j, e, cells, p, al, di):
     """do proximity p, allocation al, direction di at (i, j) describe one of the exact nearest targets?"""
     if e is None:
         return p != p and al != al and di != di
-    if p != p or abs(p - e) > 1e-5 * max(1.0, e):
+    if p != p or abs(p - e) > 1e-5 * (max(1.0, e) if c["metric"] != "GREAT_CIRCLE" else e):
         return False
     for (ti, tj) in cells:
         v = float(np.float32(a[ti, tj]))
@@ -247,7 +387,7 @@ def names_exact(c, a, xs, ys, i, j, e, cells, p, al, di):
 def classify(c, res):
     """key of a Dask != NumPy difference: one of the two sweep-heuristic keys when the brute-force search explains
     every differing cell, else None"""
-    if c["metric"] not in ("EUCLIDEAN", "MANHATTAN") or "modes" not in res:
+    if c["metric"] not in ("EUCLIDEAN", "MANHATTAN", "GREAT_CIRCLE") or "modes" not in res:
         return None
     ms = res["modes"]
     if any(ms[m][b][0] != "ok" for m in MODES for b in ("numpy", "dask")):
@@ -277,6 +417,11 @@ def judge(c, res):
     """returns (failure text or None, tags, key)"""
     tags = [f"mode:{c['mode']}", f"metric:{c['metric']}", f"blocks:{min(9, len(c['rch']) * len(c['cch']))}",
             "maxd:" + ("inf" if c["max_distance"] is None else "finite")]
+    if c.get("geo"):
+        tags += ["stream:geo", f"geo-lat:{c['geo']['lat']}", f"geo-maxd:{c['geo']['maxd']}",
+                 "geo-cell:" + ("<=1e-3" if c["sx"] <= 1e-3 else "<=0.1" if c["sx"] <= 0.1 else "<=1")]
+        if c["max_distance"] is not None:
+            tags.append("geo-halo-columns:%d" % min(9, halo_cells(c["max_distance"], c["sx"], c["sy"])[1]))
     n, d = res["numpy"], res["dask"]
     if n[0] != "ok":
         tags.append("numpy-raised:" + n[0])
@@ -298,6 +443,19 @@ def judge(c, res):
            KEY_TIE: " [both name an exact nearest target, two equidistant ones]"}.get(key, "")
     return (f"{c['mode']} differs at {(i, j)}: numpy {nv[i][j]} vs dask {dv[i][j]} ({len(diffs)} cells), "
             f"chunks {c['rch']}x{c['cch']} max_distance={c['max_distance']} metric={c['metric']}" + why), tags, key
+
+
+def geo_cross_column(c, out):
+    """does some non-target cell of the NumPy result have a value (it is within max_distance of a target) -- in a row whose
+    targets are all in other columns, i.e. the distance was measured across columns?"""
+    a = case_array(c).astype(np.float64)
+    for i in range(c["h"]):
+        for j in range(c["w"]):
+            v = out[i][j]
+            if v == v and not is_target(float(a[i, j]), c["targets"]) and not any(
+                    is_target(float(a[t, j]), c["targets"]) for t in range(c["h"])):
+                return True
+    return False
 
 
 # ---------------------------------------------------------------- stream `window`: fast window-vs-whole experiment
@@ -912,6 +1070,12 @@ def run(r, n_override=None):
               "ascending/descending coordinates with offsets, metrics EUCLIDEAN/MANHATTAN/GREAT_CIRCLE, max_distance from "
               "0.3 cell to the raster diagonal and inf, three output modes, random chunk compositions, schedulers "
               "synchronous/threads; non-trivial = more than one block and at least one non-NaN non-target cell. "
+              "stream geo (through the public API like stream api): GREAT_CIRCLE on lon/lat rasters at base latitudes 0 / +-45 / +-60 / +-80 "
+              "(25%) and next to a pole (75%: nearest row 7e-4..8e-3 degrees from it, either pole, pole row first or last), cells 1e-4..1 "
+              "degree (square, 2:1, 1:2), max_distance = the largest halo the raster admits / a fraction of it / 0.8..9.3 cell widths of the "
+              "pole row in metres / 1% / inf, always inside the property's domain (max_distance / cellsize <= raster size per axis); 1-5 "
+              "targets in the rows nearest to the pole, half the rasters with one beside a column split; >= 2 column chunks; non-trivial "
+              "as in stream api, tags geo-cross-column-reach / geo-own-column-only say whether a cell is reached across columns. "
               "stream window: rasters 3..9 x 3..9 (thorough ..10), cells 1x1 1x2 2x1 1x3 3x1 2x3 3x2 times unit 0.5..2, 1-7 targets with "
               "unique values (+NaN cells, explicit lists), max_distance k, k+1/2, sqrt(k+1/2), sqrt(k+1/4) and decimals, random chunk "
               "compositions (merged as dask merges them), whole-raster kernel vs kernel on each halo window, three modes; "
@@ -923,7 +1087,9 @@ def run(r, n_override=None):
               "results are evaluated in ONE graph (dask.compute of all / xr.Dataset / a - b), each judged against its own NumPy-backed "
               "call (a difference that a call shows when computed alone is reported under that call's own key)")
     extra = window_stream(r)
-    cases = [b["case"] for b in r.corpus() if b["case"].get("stream") != "joint-graph"] + [gen_case(r.rng) for _ in range(n)] + [c for (c, _, _) in extra]
+    n_geo = {"quick": 32, "thorough": 240}[r.tier] * (1 if n_override is None else 3)
+    cases = [b["case"] for b in r.corpus() if b["case"].get("stream") != "joint-graph"] + [gen_case(r.rng) for _ in range(n)] + \
+        [gen_geo_case(r.rng) for _ in range(n_geo)] + [POLAR_CAP_CASE] + [c for (c, _, _) in extra]
     sims = [None] * (len(cases) - len(extra)) + [(why, res) for (_, why, res) in extra]
     nproc = min(16, os.cpu_count() or 4)
     chunks = [cases[i::nproc] for i in range(nproc)]
@@ -948,11 +1114,17 @@ def run(r, n_override=None):
     pad_reqs, pad_cases = [], []
     for k in sorted(ordered):
         c, res = ordered[k]
+        if c.get("stream") == "observation":
+            polar_cap_observation(r, c, res)
+            continue
         bad, tags, key = judge(c, res)
         nontriv = len(c["rch"]) * len(c["cch"]) > 1 and res["numpy"][0] == "ok" and \
             any(v == v and v != 0 for row in res["numpy"][1] for v in row)
         sim = sims[k]
         pub = {kk: c[kk] for kk in c if kk not in ("stream", "ux", "uy", "unit", "mx")}
+        if c.get("geo") and nontriv and res["numpy"][0] == "ok" and c["max_distance"] is not None:
+            # some cell is reached from a target in another column (the halo along x matters)
+            tags.append("geo-cross-column-reach" if geo_cross_column(c, res["numpy"][1]) else "geo-own-column-only")
         r.case(pub, desc=pub if k < 3 else None, nontrivial=nontriv, tags=tags + (["api:window-" + sim[0]] if sim else []))
         if bad:
             r.fail(key, bad, pub)
